@@ -246,14 +246,12 @@ func checkC04(c *an.Ctx) {
 		}
 		return true
 	}
-	for _, r := range p.DeepSources(op, 2, false) {
-		if call, ok := r.(*ssa.Call); ok {
-			if cc, ok := an.IsCallTo(call, fnGraphNodes); ok && isScheduled(cc.Args[0]) {
-				okRange = true
+	if graphs, ok := allNodesOf(p, op, 2); ok {
+		okRange = true
+		for _, g := range graphs {
+			if !isScheduled(g) {
+				okRange = false
 			}
-		}
-		if an.AccessPath(r).LastField() == "nodes" {
-			okRange = true
 		}
 	}
 	c.Check(okRange, "C04.4", an.Short(s.launchFn)+":range", s.launch.Pos(), "the per-stage loop ranges over Nodes() of the scheduled graph", "the per-stage loop does not range over all nodes of the scheduled graph")
